@@ -35,7 +35,7 @@ ASSUMPTIONS = [
     'surrogate predictions uninterpreted with V > 0; exact reals',
     'RandMaxVar: known finding C11/randmaxvar-leaves-bounds (probed separately)',
 ]
-OUTSIDE = ['the model part of the MaxVar gradient (derivative of the skew-normal cdf / Owen\'s T) and the ExpIntVar gradient: for '
+OUTSIDE = ['whole Bayesian-optimisation runs with more than 2 parameters', 'the model part of the MaxVar gradient (derivative of the skew-normal cdf / Owen\'s T) and the ExpIntVar gradient: for '
            'MaxVar only the product-rule structure in the prior is claimed', 'whether L-BFGS-B respects its bounds',
            'GP hyper-parameter optimisation', 'dimension > 2']
 
